@@ -3,13 +3,14 @@
 (* Leg C: traces recorded by harness/drv_pool (mode "pipeline") from the   *)
 (* real PipelineTransport + lazyDnsConn over harness DnsConns (fake real   *)
 (* connections with the DnsConn contract), checked against LazyPipeline.   *)
-(* Logged: Reset, Start(c), Cancel(c), Dial(x), DialRet(x, ok),            *)
+(* Logged: Reset(dials = number of dials of this trace), Start(c), Cancel(c), Dial(x), DialRet(x, ok),            *)
 (*   ExchReq(x, c) (ExchangeReserved called on connection x with c's       *)
 (*   query), ExchRet(x, c, r) (r = ok | err | ctx), UClose(x) (Close() on  *)
-(*   the dialled connection), TClose, TCloseRet, Return(c, res).           *)
+(*   a live dialled connection), Kill(x, k) (the harness kills the fake    *)
+(*   connection), TClose, TCloseRet, Return(c, res).                       *)
 (* x is the harness' dial number; hid binds it to the spec's connection.   *)
 (* Silent: GetRX, EarlyWake, EarlyCtx, Retry, Fail, TCloseLock, TCloseOne  *)
-(* on a connection that is not dialled, lazily inferred Kill.              *)
+(* on a connection that is not dialled or already dead.                  *)
 (***************************************************************************)
 EXTENDS LazyPipeline, IOUtils
 
@@ -32,7 +33,8 @@ Reset ==
     /\ early' = [x \in ConnIds |-> 0] /\ wg' = [x \in ConnIds |-> 0] /\ hid' = [x \in ConnIds |-> 0]
     /\ dpc' = [x \in ConnIds |-> "none"]
     /\ health' = [x \in ConnIds |-> "na"] /\ inuse' = [x \in ConnIds |-> 0] /\ uclosed' = [x \in ConnIds |-> FALSE]
-    /\ tclosed' = FALSE /\ tm' = "free" /\ conns' = {} /\ cl' = "idle" /\ nd' = 0
+    /\ tclosed' = FALSE /\ tm' = "free" /\ conns' = {} /\ cl' = "idle" /\ nd' = 0 /\ ndmax' = Ev.dials
+    /\ flip' = [c \in Calls |-> {}]
     /\ spurious' = FALSE /\ hist' = <<>>
 
 \* the spec connection bound to harness dial number h
@@ -50,8 +52,9 @@ Logged ==
             \/ Ev.r = "err" /\ ExchFail(Ev.c)
             \/ Ev.r = "ctx" /\ ExchCtx(Ev.c)
     \/ IsEvent("UClose") /\ Known(Ev.x)
-         /\ \/ lz[ConnOf(Ev.x)] = "dialed" /\ TCloseOne(ConnOf(Ev.x))
+         /\ \/ lz[ConnOf(Ev.x)] = "dialed" /\ health[ConnOf(Ev.x)] # "dead" /\ TCloseOne(ConnOf(Ev.x))
             \/ DialCloseLate(ConnOf(Ev.x))
+    \/ IsEvent("Kill") /\ Known(Ev.x) /\ Kill(ConnOf(Ev.x), Ev.k)
     \/ IsEvent("TClose") /\ TCloseStart
     \/ IsEvent("TCloseRet") /\ TCloseEnd
     \/ IsEvent("Return") /\ pc[Ev.c] = "done" /\ UNCHANGED vars
@@ -60,15 +63,11 @@ Logged ==
             \/ Ev.res = "tclosed" /\ res[Ev.c] # "ok" /\ tclosed
             \/ Ev.res = "other" /\ res[Ev.c] \notin {"ok", "ctx"}
 
-NextIsErrOn(x) ==
-    /\ l <= Len(Trace) /\ Ev.ev = "ExchRet" /\ Ev.r = "err" /\ hid[x] = Ev.x
-
 Silent ==
     /\ l <= Len(Trace)
     /\ UNCHANGED l
     /\ \/ \E c \in Calls : GetRX(c) \/ EarlyWake(c) \/ EarlyCtx(c) \/ Retry(c) \/ Fail(c)
-       \/ \E x \in ConnIds : \/ (lz[x] # "dialed" /\ TCloseOne(x))
-                              \/ (NextIsErrOn(x) /\ Kill(x, "stale"))
+       \/ \E x \in ConnIds : (lz[x] # "dialed" \/ health[x] = "dead") /\ TCloseOne(x)
        \/ TCloseLock
 
 TraceNext == (Reset \/ Logged \/ Silent) /\ LazyInv'
